@@ -262,8 +262,13 @@ def _minmax(kind):
         items = ex.as_iterable(args[0]) if len(args) == 1 else list(args)
         if not isinstance(items, list):
             raise Unsupported(f"{kind}() of a symbolic-length sequence")
+        if "key" in kw:
+            raise Unsupported(f"{kind}() with a key function")
         if not items:
+            if "default" in kw and len(args) == 1:
+                return kw["default"]
             raise SymRaise("ValueError", f"{kind}() arg is an empty sequence")
+        kw.get("default")
         r = b2i(items[0])
         for x in items[1:]:
             x = b2i(x)
